@@ -28,9 +28,14 @@ def _strategy(shapes):
     @st.composite
     def s(draw):
         (R,) = draw(st.sampled_from(shapes))
-        lam = draw(gen.arr((R,), 0.2, 5.0))
-        nu = draw(gen.arr((R,), -3, 3))
+        # unit of x (sigma ~ unit) and distance of the mean from the origin in standard deviations
+        unit = draw(st.sampled_from([1.0, 1.0, 1.0, 1e-3, 1e3]))
+        far = draw(st.sampled_from([1.0, 1.0, 1.0, 1.0, 10.0, 100.0]))
+        lam = draw(gen.arr((R,), 0.2, 5.0)) / unit**2
+        nu = draw(gen.arr((R,), -3, 3)) * far / unit
         lb = draw(gen.arr((R,), -2, 2))
+        if far > 1.0:
+            lb = lb - 0.5 * nu**2 / lam  # keeps the total mass exp(lb + nu^2 / (2 lam)) * sqrt(2 pi / lam) representable
         mode = draw(st.sampled_from(MODES))
         per = draw(st.booleans())
         n = R if per else 1
@@ -71,7 +76,7 @@ def _strategy(shapes):
         cut = a + zc * (b - a)
         return {"R": R, "Lambda": lam.reshape(R, 1, 1), "nu": nu.reshape(R, 1), "ln_beta": lb, "mode": mode, "per": per,
                 "lower": lower, "upper": upper, "cut": cut.reshape(n, 1) if per else float(cut[0]),
-                "k": draw(st.integers(0, 6)), "xs": draw(gen.arr((3,), -4, 4)),
+                "k": draw(st.integers(0, 6)), "xs": draw(gen.arr((3,), -4, 4)) * unit, "unit": unit, "far": far,
                 "variant": draw(st.sampled_from(["measure", "get_density", "direct_pdf"])),
                 "base": draw(st.sampled_from(["measure", "pdf"]))}
     return s()
@@ -223,7 +228,7 @@ def _nontrivial(case):
 
 
 def _labels(case):
-    return [f"mode={case['mode']}", f"variant={case['variant']}", f"base={case['base']}", f"k={case['k']}", "per_component_limits" if case["per"] else "scalar_limits"]
+    return [f"mode={case['mode']}", f"variant={case['variant']}", f"base={case['base']}", f"k={case['k']}", "per_component_limits" if case["per"] else "scalar_limits", f"unit={case.get('unit', 1.0):g}", f"mean_over_sd~{case.get('far', 1.0):g}"]
 
 
 SUBS = [
